@@ -459,7 +459,7 @@ class SymCtx:
         split(goal)
         t0 = time.time()
         status, backend, detail, vals = 'discharged', 'syntactic', '', None
-        tmo = self.cfg.get('ob_timeout_ms', 10000)
+        tmo = self.contract.opts.get('ob_timeout_ms', self.cfg.get('ob_timeout_ms', 10000))     # per-contract option (runner copies it only into the exploration cfg)
         for g in parts:
             neg = z3.simplify(z3.Not(g))
             r = self.path.check(neg, timeout_ms=tmo)
